@@ -175,7 +175,7 @@ theorem explicit_id_plants_no_route (c : Cache) (now : Nat) (sid : Str) (answer 
     by_cases hx : e.expired now = true
     · simp [hx]
     · simp only [hx, Bool.false_eq_true, if_false]
-      by_cases hra : (ra && !e.authenticated) = true
+      by_cases hra : (!(e.key.isSome && (e.crypto == "AES" || e.crypto == "AESGCM")) || (ra && !e.authenticated)) = true
       · rw [if_pos hra]; simp
       rw [if_neg hra]
       cases answer with
